@@ -29,10 +29,116 @@ def checkJoin (P : Prog) (a : JAnn) : Bool :=
   P.entries.all (fun e => (joinedAt a e).isEmpty) && P.boot.all (fun e => (joinedAt a e).isEmpty) &&
   a.length ≤ P.code.length
 
+theorem at_ge (P : Prog) (n : Nat) (hn : P.code.length ≤ n) : P.at n = .done false := by
+  simp [Prog.at, List.getD_eq_getElem?_getD, List.getElem?_eq_none hn]
+
+theorem step_lt {P : Prog} {t n : Nat} {g g' : G} (h : TStep t (P.at n) g g') : n < P.code.length := by
+  by_cases hlt : n < P.code.length
+  · exact hlt
+  · rw [at_ge P n (by omega)] at h; cases h
+
+theorem set_get_cases {l : List Nat} {t0 nx t n : Nat} (h : (l.set t0 nx)[t]? = some n) :
+    (t = t0 ∧ n = nx ∧ t0 < l.length) ∨ (t ≠ t0 ∧ l[t]? = some n) := by
+  rw [List.getElem?_set] at h
+  split at h
+  · split at h
+    · left; simp_all
+    · simp at h
+  · right; exact ⟨by omega, h⟩
+
+theorem append_get_cases {α} {l : List α} {e : α} {t : Nat} {n : α} (h : (l ++ [e])[t]? = some n) :
+    l[t]? = some n ∨ (t = l.length ∧ n = e) := by
+  rw [List.getElem?_append] at h
+  split at h
+  · left; exact h
+  · right
+    rw [List.getElem?_singleton] at h
+    split at h
+    · simp at h; exact ⟨by omega, h.symm⟩
+    · simp at h
+
+theorem sub_mem {a b : List Nat} (h : sub a b = true) {x : Nat} (hx : x ∈ a) : x ∈ b := by
+  simp only [sub, List.all_eq_true, List.contains_iff_mem] at h
+  exact h x hx
+
+theorem joinedAt_ge {a : JAnn} {n : Nat} (h : a.length ≤ n) : joinedAt a n = [] := by
+  simp [joinedAt, List.getD_eq_getElem?_getD, List.getElem?_eq_none h]
+
+theorem join_parts {P : Prog} {a : JAnn} (h : checkJoin P a = true) :
+    (∀ n, n < P.code.length → checkJoinNode P a n = true) ∧ (∀ e ∈ P.entries, joinedAt a e = []) ∧
+    (∀ e ∈ P.boot, joinedAt a e = []) ∧ a.length ≤ P.code.length := by
+  simp only [checkJoin, Bool.and_eq_true, List.all_eq_true, List.mem_range, List.isEmpty_iff,
+    decide_eq_true_eq] at h
+  exact ⟨h.1.1.1, h.1.1.2, h.1.2, h.2⟩
+
+def JInv (a : JAnn) (g : G) : Prop :=
+  ∀ (t n : Nat), g.pcs[t]? = some n → ∀ ch ∈ joinedAt a n, g.sig ch = true
+
+theorem jinv_move {a : JAnn} {g : G} (hinv : JInv a g) {t0 n0 nx : Nat} (_hn0 : g.pcs[t0]? = some n0)
+    (g' : G) (hp : g'.pcs = g.pcs.set t0 nx) (hs : ∀ ch, g.sig ch = true → g'.sig ch = true)
+    (hnx : ∀ ch ∈ joinedAt a nx, g'.sig ch = true) : JInv a g' := by
+  intro t n hn ch hch
+  rw [hp] at hn
+  rcases set_get_cases hn with ⟨_, rfl, _⟩ | ⟨_, hold⟩
+  · exact hnx ch hch
+  · exact hs ch (hinv t n hold ch hch)
+
+theorem jinv_append {a : JAnn} {g : G} (hinv : JInv a g) {e : Nat} (he : joinedAt a e = [])
+    (g' : G) (hp : g'.pcs = g.pcs ++ [e]) (hs : ∀ ch, g.sig ch = true → g'.sig ch = true) : JInv a g' := by
+  intro t n hn ch hch
+  rw [hp] at hn
+  rcases append_get_cases hn with hold | ⟨_, rfl⟩
+  · exact hs ch (hinv t n hold ch hch)
+  · rw [he] at hch; cases hch
+
 /-- whatever the annotation says a thread has joined is really closed. -/
 theorem joined_sound (P : Prog) (a : JAnn) (h : checkJoin P a = true) (g : G) (hr : Reach P g)
     (t n : Nat) (hn : g.pcs[t]? = some n) : ∀ ch ∈ joinedAt a n, g.sig ch = true := by
-  sorry
+  have hinv : JInv a g := by
+    clear hn
+    obtain ⟨hnodes, hent, hboot, hlen⟩ := join_parts h
+    induction hr with
+    | init =>
+      intro t n hn ch hch
+      have : n ∈ P.boot := List.mem_of_getElem? hn
+      rw [hboot n this] at hch; cases hch
+    | step g g' _ hstep ih =>
+      cases hstep with
+      | start e _ he => exact jinv_append ih (hent e he) _ rfl (fun _ h => h)
+      | thread t0 n0 _ _ hn0 hts =>
+        have hlt := step_lt hts
+        have hc := hnodes n0 hlt
+        unfold checkJoinNode at hc
+        generalize P.at n0 = i at hts hc
+        cases hts
+        case awaitOk c ok to hsig =>
+          simp only [Bool.and_eq_true] at hc
+          refine jinv_move ih hn0 _ rfl (fun _ h => h) ?_
+          intro x hx
+          have := sub_mem hc.1 hx
+          rcases List.mem_cons.mp this with rfl | h1
+          · exact hsig
+          · exact ih t0 n0 hn0 x h1
+        case awaitTimeout c ok to =>
+          simp only [Bool.and_eq_true] at hc
+          exact jinv_move ih hn0 _ rfl (fun _ h => h) (fun x hx => ih t0 n0 hn0 x (sub_mem hc.2 hx))
+        case spawn e nx =>
+          simp only [Bool.and_eq_true, List.isEmpty_iff] at hc
+          have h1 : JInv a (g.move t0 nx) :=
+            jinv_move ih hn0 _ rfl (fun _ h => h) (fun x hx => ih t0 n0 hn0 x (sub_mem hc.2 hx))
+          exact jinv_append h1 hc.1 _ rfl (fun _ h => h)
+        case signal c nx =>
+          simp only [Instr.succs, List.all_eq_true, List.mem_singleton, forall_eq] at hc
+          refine jinv_move ih hn0 _ rfl ?_ ?_
+          · intro x hx; show upd g.sig c true x = true; unfold upd; split <;> simp [hx]
+          · intro x hx; show upd g.sig c true x = true; unfold upd; split
+            · rfl
+            · exact ih t0 n0 hn0 x (sub_mem hc hx)
+        all_goals
+          simp only [Instr.succs, List.all_eq_true] at hc
+          refine jinv_move ih hn0 _ rfl (fun _ h => h) (fun x hx => ih t0 n0 hn0 x (sub_mem (hc _ ?_) hx))
+          first | assumption | simp
+  exact hinv t n hn
 
 /-- channel `ch` is closed only as the last action of a goroutine (`signal ch` is followed by `done`). -/
 def signalLast (P : Prog) (ch : Nat) : Bool :=
@@ -41,12 +147,68 @@ def signalLast (P : Prog) (ch : Nat) : Bool :=
     | .signal c nx => c != ch || (match P.at nx with | .done _ => true | _ => false)
     | _ => true)
 
+theorem lt_of_get {α} {l : List α} {t : Nat} {n : α} (h : l[t]? = some n) : t < l.length := by
+  by_cases hlt : t < l.length
+  · exact hlt
+  · rw [List.getElem?_eq_none (by omega)] at h; cases h
+
+theorem signal_node {P : Prog} {ch : Nat} (h : signalLast P ch = true) {n : Nat} (hn : n < P.code.length) :
+    (match P.at n with
+    | .signal c nx => c != ch || (match P.at nx with | .done _ => true | _ => false)
+    | _ => true) = true := by
+  simp only [signalLast, List.all_eq_true, List.mem_range] at h
+  exact h n hn
+
 /-- if `ch` is closed then some thread has executed its `signal ch` and — when `signalLast` holds —
 is at a `done` node or about to be (its next instruction is `done`): the goroutine has exited. -/
 theorem signalled_exited (P : Prog) (ch : Nat) (h : signalLast P ch = true) (g : G) (hr : Reach P g)
     (hs : g.sig ch = true) :
     ∃ (t n : Nat), g.pcs[t]? = some n ∧ (∃ ok, P.at n = .done ok) := by
-  sorry
+  induction hr with
+  | init => simp [G.boot, G.init] at hs
+  | step g g' _ hstep ih =>
+    cases hstep with
+    | start e _ he =>
+      obtain ⟨t, n, hn, hd⟩ := ih hs
+      exact ⟨t, n, by
+        show (g.pcs ++ [e])[t]? = some n
+        rw [List.getElem?_append_left (lt_of_get hn)]; exact hn, hd⟩
+    | thread t0 n0 _ _ hn0 hts =>
+      have hlt := step_lt hts
+      -- a thread sitting at a `done` node is not the one that moves
+      have keep : ∀ (g1 : G), g.sig ch = true → (∃ nx, g1.pcs = g.pcs.set t0 nx ∨ ∃ e, g1.pcs = g.pcs.set t0 nx ++ [e]) →
+          ∃ (t n : Nat), g1.pcs[t]? = some n ∧ (∃ ok, P.at n = .done ok) := by
+        intro g1 hsg hp
+        obtain ⟨t, n, hn, ok, hd⟩ := ih hsg
+        have hne : t ≠ t0 := by
+          intro heq; subst heq
+          rw [hn0] at hn; cases hn
+          rw [hd] at hts; cases hts
+        obtain ⟨nx, hp | ⟨e, hp⟩⟩ := hp
+        · refine ⟨t, n, ?_, ok, hd⟩
+          rw [hp, List.getElem?_set, if_neg (fun h => hne h.symm)]; exact hn
+        · refine ⟨t, n, ?_, ok, hd⟩
+          rw [hp, List.getElem?_append_left (by rw [List.length_set]; exact lt_of_get hn),
+            List.getElem?_set, if_neg (fun h => hne h.symm)]; exact hn
+      have hsl := signal_node h hlt
+      generalize P.at n0 = i at hts hsl
+      cases hts
+      case signal c nx =>
+        by_cases hc : c = ch
+        · subst hc
+          simp only [bne_self_eq_false, Bool.false_or] at hsl
+          refine ⟨t0, nx, ?_, ?_⟩
+          · show (g.pcs.set t0 nx)[t0]? = some nx
+            rw [List.getElem?_set, if_pos rfl, if_pos (lt_of_get hn0)]
+          · revert hsl
+            cases hnx : P.at nx <;> simp
+        · refine keep _ ?_ ⟨nx, Or.inl rfl⟩
+          have : upd g.sig c true ch = true := hs
+          unfold upd at this
+          rw [if_neg (fun h => hc h.symm)] at this
+          exact this
+      case spawn e nx => exact keep _ hs ⟨nx, Or.inr ⟨e, rfl⟩⟩
+      all_goals exact keep _ hs ⟨_, Or.inl rfl⟩
 
 /-! ### born-after -/
 
@@ -55,7 +217,7 @@ abbrev PAnn := List Bool
 def passedAt (a : PAnn) (n : Node) : Bool := a.getD n false
 
 /-- edges that are only enabled while flag `F` is false. -/
-def checkPassNode (F : Nat) (P : Prog) (a : PAnn) (n : Node) : Bool :=
+def checkPassNode (F : Nat) (exempt : List Node) (P : Prog) (a : PAnn) (n : Node) : Bool :=
   let p := passedAt a n
   match P.at n with
   | .lock _ ok err => (passedAt a ok → (p || F == fCLOSED)) && (passedAt a err → p)
@@ -63,25 +225,151 @@ def checkPassNode (F : Nat) (P : Prog) (a : PAnn) (n : Node) : Bool :=
   | .cas f w l => (passedAt a w → (p || f == F)) && (passedAt a l → p)
   | .set f v nx => (f != F || v) && (passedAt a nx → p)     -- F is never reset
   | .spawn e nx => !passedAt a e && (passedAt a nx → p)
-  | .done ok => !ok || p                                     -- a successful return needs a passed check
+  | .done ok => !ok || p || exempt.contains n                -- a successful return (of a call in scope) needs a passed check
   | i => i.succs.all (fun s => passedAt a s → p)
 
-def checkPass (F : Nat) (P : Prog) (a : PAnn) : Bool :=
-  (List.range P.code.length).all (checkPassNode F P a) &&
+def checkPass (F : Nat) (exempt : List Node) (P : Prog) (a : PAnn) : Bool :=
+  (List.range P.code.length).all (checkPassNode F exempt P a) &&
   P.entries.all (fun e => !passedAt a e) && P.boot.all (fun e => !passedAt a e) &&
   a.length ≤ P.code.length
+
+theorem pass_node {F : Nat} {exempt : List Node} {P : Prog} {a : PAnn} (h : checkPass F exempt P a = true) {n : Nat}
+    (hn : n < P.code.length) : checkPassNode F exempt P a n = true := by
+  simp only [checkPass, Bool.and_eq_true, List.all_eq_true, List.mem_range] at h
+  exact h.1.1.1 n hn
+
+theorem flag_mono_aux (F : Nat) (exempt : List Node) (P : Prog) (a : PAnn) (h : checkPass F exempt P a = true)
+    (g g' : G) (hs : Step P g g') (hf : g.flag F = true) : g'.flag F = true := by
+  cases hs with
+  | start e _ he => exact hf
+  | thread t n _ _ hn hstep =>
+    have hlt := step_lt hstep
+    have hc := pass_node h hlt
+    unfold checkPassNode at hc
+    generalize P.at n = i at hstep hc
+    cases hstep <;> try exact hf
+    · simp only [Bool.and_eq_true, Bool.or_eq_true, bne_iff_ne, ne_eq] at hc
+      show upd g.flag _ _ F = true
+      unfold upd
+      split
+      · rename_i heq
+        rcases hc.1 with h1 | h1
+        · exact absurd heq.symm h1
+        · exact h1
+      · exact hf
+    · show upd g.flag _ true F = true
+      unfold upd
+      split <;> simp [hf]
+
+
+theorem pass_parts {F : Nat} {exempt : List Node} {P : Prog} {a : PAnn} (h : checkPass F exempt P a = true) :
+    (∀ e ∈ P.entries, passedAt a e = false) ∧ (∀ e ∈ P.boot, passedAt a e = false) ∧
+    a.length ≤ P.code.length := by
+  simp only [checkPass, Bool.and_eq_true, List.all_eq_true, Bool.not_eq_true',
+    decide_eq_true_eq] at h
+  exact ⟨h.1.1.2, h.1.2, h.2⟩
+
+/-- invariant for the born-after argument. -/
+def BInv (F : Nat) (a : PAnn) (g : G) : Prop :=
+  g.born.length = g.pcs.length ∧
+  (∀ (t : Nat) (fl : Nat → Bool) (n : Nat),
+    g.born[t]? = some fl → fl F = true → g.pcs[t]? = some n → g.flag F = true ∧ passedAt a n = false)
+
+theorem binv_move {F : Nat} {a : PAnn} {g : G} (hinv : BInv F a g) {t0 n0 nx : Nat}
+    (hn0 : g.pcs[t0]? = some n0) (g' : G) (hp : g'.pcs = g.pcs.set t0 nx) (hb : g'.born = g.born)
+    (hfl : g.flag F = true → g'.flag F = true)
+    (hnx : g.flag F = true → passedAt a n0 = false → passedAt a nx = false) : BInv F a g' := by
+  refine ⟨by rw [hp, hb, List.length_set]; exact hinv.1, ?_⟩
+  intro t fl n hbt hflF hpc
+  rw [hb] at hbt
+  rw [hp] at hpc
+  rcases set_get_cases hpc with ⟨rfl, rfl, _⟩ | ⟨_, hold⟩
+  · obtain ⟨h1, h2⟩ := hinv.2 t fl n0 hbt hflF hn0
+    exact ⟨hfl h1, hnx h1 h2⟩
+  · obtain ⟨h1, h2⟩ := hinv.2 t fl n hbt hflF hold
+    exact ⟨hfl h1, h2⟩
+
+/-- a new thread at a not-yet-passed node `e`, born with the current valuation. -/
+theorem binv_append {F : Nat} {a : PAnn} {g : G} (hinv : BInv F a g) {e : Nat} (he : passedAt a e = false)
+    (g' : G) (hp : g'.pcs = g.pcs ++ [e]) (hb : g'.born = g.born ++ [g.flag]) (hfl : g'.flag = g.flag) :
+    BInv F a g' := by
+  refine ⟨by rw [hp, hb]; simp only [List.length_append, List.length_singleton]; rw [hinv.1], ?_⟩
+  intro t fl n hbt hflF hpc
+  rw [hb] at hbt
+  rw [hp] at hpc
+  rw [hfl]
+  have hlen := hinv.1
+  rcases append_get_cases hpc with hold | ⟨rfl, rfl⟩
+  · have hlt := lt_of_get hold
+    have hbt' : g.born[t]? = some fl := by
+      rw [List.getElem?_append_left (by omega)] at hbt; exact hbt
+    exact hinv.2 t fl n hbt' hflF hold
+  · rcases append_get_cases hbt with hold | ⟨_, rfl⟩
+    · have := lt_of_get hold; omega
+    · exact ⟨hflF, he⟩
+
+theorem binv_reach (F : Nat) (exempt : List Node) (P : Prog) (a : PAnn) (h : checkPass F exempt P a = true)
+    (g : G) (hr : Reach P g) : BInv F a g := by
+  obtain ⟨hent, hboot, _⟩ := pass_parts h
+  induction hr with
+  | init =>
+    refine ⟨by simp [G.boot], ?_⟩
+    intro t fl n hbt hflF _
+    simp only [G.boot, List.getElem?_map] at hbt
+    cases hq : P.boot[t]? with
+    | none => rw [hq] at hbt; cases hbt
+    | some x =>
+      rw [hq] at hbt
+      simp only [Option.map_some, Option.some.injEq] at hbt
+      subst hbt; cases hflF
+  | step g g' _ hstep ih =>
+    cases hstep with
+    | start e _ he => exact binv_append ih (hent e he) _ rfl rfl rfl
+    | thread t0 n0 _ _ hn0 hts =>
+      have hmono := flag_mono_aux F exempt P a h g g' (Step.thread t0 n0 g g' hn0 hts)
+      have hlt := step_lt hts
+      have hc := pass_node h hlt
+      unfold checkPassNode at hc
+      generalize P.at n0 = i at hts hc
+      cases hts
+      case spawn e nx =>
+        simp only [Bool.and_eq_true, Bool.not_eq_true', decide_eq_true_eq] at hc
+        have h1 : BInv F a (g.move t0 nx) := by
+          refine binv_move ih hn0 _ rfl rfl (fun hf => hf) ?_
+          intro _ hp
+          rw [Bool.eq_false_iff]
+          intro hq
+          rw [hc.2 hq] at hp; cases hp
+        exact binv_append h1 hc.1 _ rfl rfl rfl
+      all_goals
+        refine binv_move ih hn0 _ rfl rfl hmono ?_
+        intro hF hp
+        rw [Bool.eq_false_iff]
+        intro hq
+        simp_all [Instr.succs]
 
 /-- **closed (closing) is final**: a thread created when flag `F` was already true — a call that
 starts after the connection was closed, or a Close/CloseNow after an earlier one has begun — never
 reaches a successful return, in any interleaving. -/
-theorem born_after_never_succeeds (F : Nat) (P : Prog) (a : PAnn) (h : checkPass F P a = true)
+theorem born_after_never_succeeds (F : Nat) (exempt : List Node) (P : Prog) (a : PAnn) (h : checkPass F exempt P a = true)
     (g : G) (hr : Reach P g) (t n : Nat) (hn : g.pcs[t]? = some n)
-    (hb : ∃ fl, g.born[t]? = some fl ∧ fl F = true) : P.at n ≠ .done true := by
-  sorry
+    (hb : ∃ fl, g.born[t]? = some fl ∧ fl F = true) (hex : exempt.contains n = false) :
+    P.at n ≠ .done true := by
+  obtain ⟨fl, hbt, hflF⟩ := hb
+  obtain ⟨_, hp⟩ := (binv_reach F exempt P a h g hr).2 t fl n hbt hflF hn
+  intro hd
+  by_cases hlt : n < P.code.length
+  · have hc := pass_node h hlt
+    unfold checkPassNode at hc
+    rw [hd] at hc
+    simp [hp] at hc
+    simp at hex
+    exact hex hc
+  · rw [at_ge P n (by omega)] at hd; cases hd
 
 /-- flag `F`, once true, stays true. -/
-theorem flag_monotone (F : Nat) (P : Prog) (a : PAnn) (h : checkPass F P a = true)
-    (g g' : G) (hs : Step P g g') (hf : g.flag F = true) : g'.flag F = true := by
-  sorry
+theorem flag_monotone (F : Nat) (exempt : List Node) (P : Prog) (a : PAnn) (h : checkPass F exempt P a = true)
+    (g g' : G) (hs : Step P g g') (hf : g.flag F = true) : g'.flag F = true :=
+  flag_mono_aux F exempt P a h g g' hs hf
 
 end WS.CIR.Join
